@@ -570,27 +570,61 @@ class SStrPlugin(object):
         out = [sh]
         gm = tuple(range(1, n + 1))
         marked = S.match_language(pat.pattern, pat.flags, marks=gm) if how == 'match' else S.body(pat.pattern, pat.flags, marks=gm)
+        fixed = []
         for g in gm:
             try:
-                out.append(self.group_value(it, pat, sh, marked, g, n))
+                self._last_span = None
+                try:
+                    feas = self._feasible_spans(it, pat, sh, marked, g, n, ())
+                except Misaligned:
+                    feas = None
+                if (feas is None or len(feas) > 1) and fixed:
+                    # the groups of ONE match come from one run: read this group off the runs that place the earlier groups
+                    # where they were found (only needed when the group alone is ambiguous: the joint product is costly)
+                    feas = self._feasible_spans(it, pat, sh, marked, g, n, tuple(fixed))
+                elif feas is None:
+                    feas = self._feasible_spans(it, pat, sh, marked, g, n, ())
+                out.append(self._choose_span(it, sh, g, feas))
+                if self._last_span is not None:
+                    fixed.append((g, self._last_span[0], self._last_span[1]))
             except Misaligned as e:
                 out.append(Poison(e))       # only an error if the program uses this group
         return out
 
-    def group_value(self, it, pat, sh, marked, g, n):
-        """the sub-shape group g captures, if every run places it on part boundaries (else OutOfSubset with a witness)"""
+    def _choose_span(self, it, sh, g, feasible):
+        # several placements (an optional group present or absent depending on the payload): fork
+        for k, f in enumerate(feasible[:-1]):
+            if it.ctx.branch(it.ctx.fresh('group%d_case%d' % (g, k), z3.BoolSort())):
+                self._last_span = f
+                return None if f is None else Shape(sh.parts[f[0]:f[1]])
+        f = feasible[-1]
+        self._last_span = f
+        return None if f is None else Shape(sh.parts[f[0]:f[1]])
+
+    def group_value(self, it, pat, sh, marked, g, n, fixed=()):
+        return self._choose_span(it, sh, g, self._feasible_spans(it, pat, sh, marked, g, n, fixed))
+
+    def _feasible_spans(self, it, pat, sh, marked, g, n, fixed=()):
+        """the sub-shape group g captures, if every run places it on part boundaries (else OutOfSubset with a witness);
+        `fixed`: (group, i, j) spans already determined for earlier groups of the same match"""
+        fgroups = [f[0] for f in fixed]
+        fmarks = [m for k in fgroups for m in ('<%d' % k, '>%d' % k)]
         others = set()
         for k in range(1, n + 1):
-            if k != g:
+            if k != g and k not in fgroups:
                 others |= {'<%d' % k, '>%d' % k}
-        rg = A.erase_marks(marked, others)                       # only group g's marks remain
+        rg = A.erase_marks(marked, others)                       # group g's marks (and those of the fixed groups) remain
         bmarks = ['#%d' % i for i in range(len(sh.parts) + 1)]
         shape_m = sh.marked()
+        gmarks = ['<%d' % g, '>%d' % g]
         # joint language over Sigma + {<g, >g} + boundary marks: both automata read the same text
         left = A.allow_marks(rg, bmarks)
-        right = A.allow_marks(shape_m, ['<%d' % g, '>%d' % g])
-        cons = [A.allow_marks(c, bmarks + ['<%d' % g, '>%d' % g]) for c in sh.cons]
-        negs = [A.allow_marks(c, bmarks + ['<%d' % g, '>%d' % g]) for c in sh.neg]
+        right = A.allow_marks(shape_m, gmarks + fmarks)
+        cons = [A.allow_marks(c, bmarks + gmarks + fmarks) for c in sh.cons]
+        negs = [A.allow_marks(c, bmarks + gmarks + fmarks) for c in sh.neg]
+        for (fg, fi, fj) in fixed:
+            extra = [m for m in gmarks + fmarks if m not in ('<%d' % fg, '>%d' % fg)]
+            cons.append(A.allow_marks(_span_language(bmarks, fg, fi, fj), extra))
         order = _order_language(bmarks, g)
         alpha = A.Alphabet([left, right] + cons + negs)
         joint = [A.determinize(left, alpha), A.determinize(right, alpha)] + \
@@ -610,7 +644,7 @@ class SStrPlugin(object):
             outcomes = [o for o in outcomes if not (o[0] == 'span' and (o[1], o[2]) != top)]
             # every misplaced run opens with the field and closes earlier than the field ends: CPython's greedy matching
             # prefers the longest capture, provided an aligned run exists for every string of the shape (coverage)
-            sel = _span_language(bmarks, g, spans[0][0], spans[0][1])
+            sel = A.allow_marks(_span_language(bmarks, g, spans[0][0], spans[0][1]), fmarks)
             al2 = A.Alphabet([left, right, sel] + cons + negs)
             prod = [A.determinize(x, al2) for x in [left, right, sel] + cons] + [A.complement(A.determinize(c, al2)) for c in negs]
             covered = _project_product(al2, prod)
@@ -632,12 +666,7 @@ class SStrPlugin(object):
         if not feasible:
             from .symex import Infeasible
             raise Infeasible()
-        # several placements (an optional group present or absent depending on the payload): fork
-        for k, f in enumerate(feasible[:-1]):
-            if it.ctx.branch(it.ctx.fresh('group%d_case%d' % (g, k), z3.BoolSort())):
-                return None if f is None else Shape(sh.parts[f[0]:f[1]])
-        f = feasible[-1]
-        return None if f is None else Shape(sh.parts[f[0]:f[1]])
+        return feasible
 
     def convert(self, it, name, args):
         """float()/int() of a shape: conversion lemmas by field kind (ledger A-fl, A-bi)"""
@@ -808,6 +837,8 @@ def _track_spans(alpha, dfas, g, nparts):
             if shi or not (phase == 'in' or slo):
                 return ('bad', None, None, None, None, False, False)
             return (phase, i, lastb, smin, smax, slo, True)
+        if sym >= nch:
+            return t            # a mark of another group: not a text position of its own
         return resolve(t)       # a character: the segment ends
     start = (tuple(d.start for d in dfas), ('pre', None, None, None, None, False, False))
     prev = {start: None}
